@@ -8,6 +8,7 @@
 //!   mux / muxhs                    Mux::run against a raw peer: all header patterns, DATA splitting, flooding an
 //!                                  application that does not read, mux handshakes with absurd capability tables
 //!   frame / rpc                    frame::recv_proto on raw bytes; rpc::Service (mux_recv_proto) per capability
+//!   trunc                          frame::mux_recv_proto on a real mux stream: valid messages cut at 0 / field boundaries / mid-field
 //!   preface                        preface::accept over TCP loopback (encryption frame, noise handshake, endpoint)
 //!   noise                          post-handshake ciphertext into noise::Stream (authentic / tampered / junk frames)
 //!   canon                          canonical_raw on a schema with repeated scalars (empty packed chunks)
@@ -1403,7 +1404,8 @@ impl C10 {
                     }
                 }
                 let alive = done.lock().unwrap().is_none();
-                Ok(json!({"class": if responded { "ok" } else { "rejected" }, "alive": alive, "_peak": peak}))
+                let truncated = avail.len() >= 4 && (avail.len() - 4) < u32::from_le_bytes(avail[..4].try_into().unwrap()) as usize;
+                Ok(json!({"class": if responded { "ok" } else { "rejected" }, "alive": alive, "_peak": peak, "_truncated_answered": truncated && responded}))
             }).await;
             res.unwrap_or_else(|_| json!({"class": "canceled"}))
         });
@@ -1415,6 +1417,9 @@ impl C10 {
             out.oracle_fail("alloc:frame::mux_recv_proto", "allocation above max_req_size", json!({"op": op, "peak": peak}));
         }
         r["alloc_le_max"] = json!(ok_alloc);
+        if r["_truncated_answered"] == json!(true) {
+            out.oracle_fail("frame:truncated_accepted", "an RPC server handled and answered a request of which fewer than the announced bytes arrived", op.clone());
+        }
         r
     }
 }
@@ -2298,6 +2303,114 @@ impl C10 {
     }
 }
 
+
+// ------------------------------------------------------------------------------------------------ truncated frames on a mux stream
+
+/// a VALID message is announced with its full length, but only a prefix of its body arrives before CLOSE: cut at 0, at every
+/// top-level field boundary (where the prefix is a valid encoding of a different value), mid-field, and not at all
+fn gen_trunc(rng: &mut StdRng, n: usize, ops: &mut Vec<Value>) {
+    use zksync_consensus_network::verif::wire;
+    let mut msgs: Vec<(&'static str, String, Vec<u8>)> = vec![];
+    for k in [1usize, 2, 5] {
+        let addrs: Vec<validator::Signed<validator::NetAddress>> = (0..k).map(|i| {
+            let key: validator::SecretKey = rng.gen();
+            key.sign_msg(validator::NetAddress { addr: std::net::SocketAddr::from(([127, 0, 0, 1], 1000 + i as u16)), version: i as u64, timestamp: time::UNIX_EPOCH + time::Duration::seconds(1_700_000_000) })
+        }).collect();
+        msgs.push(("rpc.push_validator_addrs.Req", format!("addrs:{k}"), wire::rpc_push_validator_addrs_req(addrs).encode()));
+    }
+    let blk = validator::Block::PreGenesis(validator::PreGenesisBlock { number: validator::BlockNumber(7), payload: validator::Payload(vec![1, 2, 3, 4]), justification: validator::Justification(vec![5, 6]) });
+    msgs.push(("rpc.get_block.Resp", "block:some".into(), wire::rpc_get_block_resp(Some(blk)).encode()));
+    msgs.push(("rpc.get_block.Req", "get:9".into(), wire::rpc_get_block_req(validator::BlockNumber(9)).encode()));
+    msgs.push(("rpc.ping.Req", "ping".into(), wire::rpc_ping_req([3u8; 32]).encode()));
+    msgs.push(("rpc.push_tx.Req", "tx:40".into(), wire::rpc_push_tx_req(zksync_consensus_engine::Transaction(vec![9u8; 40])).encode()));
+    msgs.push(("rpc.push_block_store_state.Req", "state".into(), wire::rpc_push_block_store_state_req(zksync_consensus_engine::BlockStoreState {
+        first: validator::BlockNumber(2), last: Some(zksync_consensus_engine::Last::PreGenesis(validator::BlockNumber(5))) }).encode()));
+    {
+        let key: validator::SecretKey = rng.gen();
+        let vote = v2::ReplicaCommit { view: v2::View { genesis: rng.gen(), epoch: validator::EpochNumber(0), number: validator::ViewNumber(3) },
+            proposal: v2::BlockHeader { number: validator::BlockNumber(1), payload: validator::Payload(vec![1]).hash() } };
+        msgs.push(("rpc.consensus.Req", "consensus".into(), wire::rpc_consensus_req(key.sign_msg(validator::ConsensusMsg::V2(v2::ChonkyMsg::ReplicaCommit(vote)))).encode()));
+    }
+    for (ty, what, body) in msgs {
+        let l = body.len();
+        let mut cuts: Vec<usize> = vec![0, l];
+        for (_, e) in tlv_spans(&body) { cuts.push(e); if e + 1 < l { cuts.push(e + 1); } }
+        if l > 1 { cuts.push(l - 1); cuts.push(1); cuts.push(l / 2); }
+        for _ in 0..n { cuts.push(rng.gen_range(0..=l)); }
+        cuts.sort(); cuts.dedup();
+        for cut in cuts {
+            let delivered = &body[..cut];
+            let mut avail = le32(l).to_vec();
+            avail.extend_from_slice(delivered);
+            // what the decoder says about the bytes it would be given on a complete frame
+            let dec = cut == l && matches!(entry::decode(ty, delivered), Some(Ok(_)));
+            // (diagnostic) would the delivered prefix decode on its own? these are the dangerous cuts
+            let prefix_decodes = matches!(entry::decode(ty, delivered), Some(Ok(_)));
+            let chunks: Vec<usize> = { let mut v = vec![]; let mut left = avail.len(); while left > 0 { let c = std::cmp::min(left, *[3usize, 50, 1000].choose(rng).unwrap()); v.push(c); left -= c; } v };
+            ops.push(json!({"op": "trunc", "ty": ty, "sent": what, "max": 1 << 20, "announced": l, "delivered": cut, "avail": bytes_json(&avail),
+                "chunks": chunks, "dec": dec, "prefix_decodes": prefix_decodes}));
+        }
+    }
+}
+
+impl C10 {
+    fn exec_trunc(&self, op: &Value, out: &mut Out) -> Value {
+        let ty = op["ty"].as_str().unwrap_or("").to_string();
+        let max = op["max"].as_u64().unwrap_or(0) as usize;
+        let avail = json_bytes(&op["avail"]);
+        let chunks: Vec<usize> = op["chunks"].as_array().map(|a| a.iter().map(|x| x.as_u64().unwrap() as usize).collect()).unwrap_or_default();
+        let (announced, delivered) = (op["announced"].as_u64().unwrap_or(0), op["delivered"].as_u64().unwrap_or(0));
+        let res = self.rt.block_on(async {
+            let root = ctx::test_root(&ctx::ManualClock::new());
+            let pipe = RawPipe::default();
+            let done: Arc<Mutex<Option<String>>> = Arc::default();
+            let result: Arc<Mutex<Option<Result<(String, usize), String>>>> = Arc::default();
+            let r: Result<Option<Result<(String, usize), String>>, ctx::Canceled> = scope::run!(&root, |ctx, s| async move {
+                let (p2, d2, r2, ty2) = (pipe.clone(), done.clone(), result.clone(), ty.clone());
+                s.spawn_bg(async move {
+                    let r = entry::mux_recv_named(ctx, p2, &ty2, max).await;
+                    *r2.lock().unwrap() = Some(r);
+                    *d2.lock().unwrap() = Some("done".into());
+                    Ok(())
+                });
+                // the peer is the connecting end of stream 0 of capability 0
+                pipe.push(&mux_handshake_frame(&[], &[(Some(0), Some(1))]));
+                settle(&pipe, &done).await;
+                let mut wire = hdr(0x0000, true, 0).to_vec();
+                let mut off = 0;
+                for c in &chunks {
+                    wire.extend_from_slice(&hdr(0x4000, true, 0));
+                    wire.extend_from_slice(&(*c as u16).to_le_bytes());
+                    wire.extend_from_slice(&avail[off..off + c]);
+                    off += c;
+                }
+                wire.extend_from_slice(&hdr(0x8000, true, 0));
+                pipe.push(&wire);
+                settle(&pipe, &done).await;
+                let r = result.lock().unwrap().clone();
+                Ok(r)
+            }).await;
+            r.ok().flatten()
+        });
+        match res {
+            Some(Ok((what, size))) => {
+                // S: a value may only be delivered when every announced byte arrived
+                if delivered < announced {
+                    out.oracle_fail("frame:truncated_accepted",
+                        &format!("truncated frame accepted as a complete message: sent {} / announced {announced} bytes, delivered {delivered} < {announced}, decoded as {what}", op["sent"].as_str().unwrap_or("?")),
+                        op.clone());
+                }
+                json!({"class": "ok", "_decoded": what, "_size": size})
+            }
+            Some(Err(e)) => {
+                let class = if e.contains("end of stream") { "eos" } else if e.contains("too large") { "too_large" } else { "decode_err" };
+                json!({"class": class, "_why": e})
+            }
+            None => json!({"class": "pending"}),
+        }
+    }
+}
+
 impl Prop for C10 {
     fn gen(&mut self, opts: &Opts) -> Vec<Value> {
         let mut rng = opts.rng();
@@ -2313,6 +2426,7 @@ impl Prop for C10 {
         gen_canon(&mut rng, n / 4, &mut ops);
         gen_consensus(&mut rng, n / 8, &mut ops);
         gen_votes(&mut rng, n / 8, &mut ops);
+        gen_trunc(&mut rng, n / 500, &mut ops);
         gen_store_and_node(&mut rng, n / 100, &mut ops);
         if let Ok(only) = std::env::var("C10_ONLY") { ops.retain(|o| o["op"] == only.as_str()); }
         // certificates: add the model's view of the realised value (map in the real BTreeMap order)
@@ -2372,6 +2486,7 @@ impl Prop for C10 {
             "tqc" | "implied" => catch(|| self.exec_tqc(op)),
             "votes" => { let o = &mut *out; catch(|| self.exec_votes(op, o)) }
             "bss" => catch(|| self.exec_bss(op)),
+            "trunc" => { let o = &mut *out; let this = &*self; catch(move || this.exec_trunc(op, o)) }
             "node" => { let o = &mut *out; catch(|| self.exec_node(op, o)) }
             "replica" => { let o = &mut *out; catch(|| self.exec_replica(op, o)) }
             _ => Ok(json!({"bad_op": true})),
